@@ -112,6 +112,8 @@ type HarnessRun struct {
 	vioSeen map[string]int
 	unknown int
 	known   map[string]bool
+	doneSeen int
+	rng      uint64
 }
 
 func (h *HarnessRun) note(s string) {
@@ -181,6 +183,9 @@ func RunHarness(ld *Loaded, decl *HarnessDecl, base Config, known map[string]boo
 	h := &HarnessRun{ld: ld, decl: decl, cfg: cfg, fns: map[string]bool{}, stubs: map[string]bool{}, notes: map[string]bool{},
 		incs: map[string]bool{}, vioSeen: map[string]int{}, known: known}
 	h.cond = sync.NewCond(&h.mu)
+	if s, err := strconv.ParseUint(os.Getenv("VERIF_SEED"), 10, 64); err == nil {
+		h.rng = s
+	}
 	h.res = HarnessResult{Harness: decl.Name, PathsByEnd: map[string]int{}, Asserts: map[string]int{}, Reach: map[string]int{}, Bounds: map[string]string{}, Doc: decl.Doc}
 	for k, v := range decl.Cfg {
 		if strings.HasPrefix(k, "b_") {
@@ -334,8 +339,15 @@ func (h *HarnessRun) worker(w int, st *SolverStats) {
 				h.res.Reach[k] += n
 			}
 		}
-		if end == "done" && len(h.res.Samples) < h.cfg.Samples {
-			h.res.Samples = append(h.res.Samples, Sample{Witness: ex.witness(ex.model), Obs: ex.obsStrings(ex.model), End: end})
+		if end == "done" {
+			// reservoir sample of completed paths (deterministic in VERIF_SEED)
+			h.doneSeen++
+			h.rng = h.rng*6364136223846793005 + 1442695040888963407
+			if len(h.res.Samples) < h.cfg.Samples {
+				h.res.Samples = append(h.res.Samples, Sample{Witness: ex.witness(ex.model), Obs: ex.obsStrings(ex.model), End: end})
+			} else if j := int((h.rng >> 33) % uint64(h.doneSeen)); j < h.cfg.Samples {
+				h.res.Samples[j] = Sample{Witness: ex.witness(ex.model), Obs: ex.obsStrings(ex.model), End: end}
+			}
 		}
 		// push alternatives (LIFO: deepest first)
 		h.work = append(h.work, ex.pending...)
